@@ -3,6 +3,11 @@ def probs(d):
 
 
 RULES = [
+    ("C20-F5", "a member of a wire merge of two same-type constants (Signal r = a + k1) that has another reader outside the merge "
+               "(an alias anchor, a function call) shares its single wire colour with the merge: the other reader sees a + k1 "
+               "instead of a (one colour per source; same root cause as C01-F3)",
+     lambda c, d: c["producer"] == "wire-merge" and c["consumption"] in ("input-aliased", "input-through-func-local")
+     and all(p.startswith("value ") for p in probs(d))),
     ("C20-F4", "a function-local variable spelled like a top-level alias (Signal r2 = r; ... func g(..) { Signal r2 = ..}) marks "
                "the top-level name as referenced: the alias gets no anchor although nothing consumes it",
      lambda c, d: c["consumption"] == "alias-local-clash"),
